@@ -256,6 +256,14 @@ pub fn run_case(base: Instant, c: &Case, cfg: &PairCfg, fresh_shape: Option<&(Ve
                     viol.push((format!("completion:{s}"), w));
                 }
             }
+            if done && cl.app.obs.lost.is_empty() {
+                // loss accounting balances: whatever happened to the 0-RTT packets (acknowledged,
+                // discarded on rejection, forgotten on Retry), nothing stays counted in flight
+                let pr = cl.conn.verif_probe();
+                if p.w.net.is_empty() && pr.streams.unacked_data == 0 && (pr.in_flight_bytes != 0 || pr.in_flight_ack_eliciting != 0) {
+                    viol.push(("in-flight-not-zero".into(), format!("everything was delivered and acknowledged, the network is quiet, but the client still counts {} bytes / {} ack-eliciting packets in flight", pr.in_flight_bytes, pr.in_flight_ack_eliciting)));
+                }
+            }
             if let Some(a) = accepted {
                 if a != c.accept {
                     viol.push(("accepted-flag".into(), format!("accepted_0rtt() = {a}, server decision was {}", c.accept)));
